@@ -124,3 +124,12 @@ Example w_arbitrary :
   map a_row (abs_state (cload_all cstate0 vs)) = map snd vs /\
   all_ids (cload_all cstate0 vs) = [1; 2; 3; 4; 5; 6; 7; 8; 9].
 Proof. vm_compute. split; reflexivity. Qed.
+
+(* a move inside one payload: rename the attribute 1 -> 9 of a map (m.Get(1).MoveTo(m.PutEmpty(9))): code 0, the new key
+   holds the old value, the old key holds an empty value; and the guard: a slot cannot be moved into itself or into its own content *)
+Example w_move_within :
+  let p := [ONew 2; OLocal 0 [] (LPut 0 1 2 10 1); OLocal 0 [] (LPut 0 9 0 0 2); OMoveSlot 0 [PS 0 0] 1 0 [PS 0 1] 1] in
+  snd (run_c common_schema cstate0 p) = [0; 0; 0; 0] /\
+  map a_row (fst (run_a common_schema [] p)) = [[VS [[VP 1; VI 0 0]; [VP 9; VI 2 10]]]]%Z /\
+  sdiverge [PS 0 0] 1 [PS 0 1] 1 = true /\ sdiverge [PS 0 0] 1 [PS 0 0] 1 = false /\ sdiverge [] 0 [PS 0 0; PR 1] 0 = false.
+Proof. vm_compute. repeat split. Qed.
